@@ -1261,7 +1261,7 @@ func (e *Enc) verifyFunc() {
 			}
 			e.bindFreeVars(fr, r.st, pv)
 			e.debugVars(fr, r.instr.Block(), r.st, pv)
-			post := &ExprEnv{e: e, fr: fr, vars: pv, st: r.st, old: st, a0: "A0", pkg: pkgOf(f)}
+			post := &ExprEnv{e: e, fr: fr, vars: pv, st: r.st, old: st, a0: "A0", pkg: pkgOf(f), at: r.instr.Block()}
 			for _, cl := range ct.Ensures {
 				post.errs = nil
 				fm, err := post.formula(cl.Text)
@@ -1276,6 +1276,46 @@ func (e *Enc) verifyFunc() {
 				o := e.addOb(fr, fam, "ensures", r.instr.Pos(), cl.Text+" @return "+e.retText(r.instr, ri), fm, false)
 				o.tags = cl.Tags
 				o.clause = cl.Name
+			}
+		}
+	}
+	// loops declared complete: the only way out is the exhausted range (dataflow on the control-flow graph)
+	{
+		lc := map[int][]string{}
+		if ct != nil && !ct.IsIface {
+			for n, tags := range ct.LoopComplete {
+				lc[n] = tags
+			}
+		}
+		for n, tags := range e.spec.loopComplete[shortName(f)] {
+			lc[n] = tags
+		}
+		for n, tags := range lc {
+			for h, li := range fr.loops {
+				if li.ord != n {
+					continue
+				}
+				early := ""
+				for b := range li.body {
+					for _, sb := range b.Succs {
+						if !li.body[sb] && b != h {
+							early = e.w.prog.Fset.Position(b.Instrs[len(b.Instrs)-1].Pos()).String()
+						}
+					}
+					if len(b.Succs) == 0 {
+						early = e.w.prog.Fset.Position(b.Instrs[len(b.Instrs)-1].Pos()).String()
+					}
+				}
+				cond := "true"
+				if early != "" {
+					cond = "false"
+				}
+				e.cur = "true"
+				o := e.addOb(fr, "POST", "complete", loopPos(h), fmt.Sprintf("loop %d is left only when its range is exhausted", n), cond, false)
+				o.tags = tags
+				if early != "" {
+					o.Output = "left early at " + shortPath(early)
+				}
 			}
 		}
 	}
@@ -1536,6 +1576,11 @@ func (e *Enc) siteGhosts(fr *Frame, b *ssa.BasicBlock, st *State) {
 			srt := e.d.sortOf(v.typ)
 			if srt == "Bool" {
 				// a Boolean ghost is false unless its program point is reached
+				if g, ok := e.ghostPre[sc.Name]; ok {
+					// declared up front (so that clauses evaluated on paths that bypass the site can mention it)
+					e.assume("(= " + g + " (and " + e.cur + " " + v.t + "))")
+					continue
+				}
 				g := e.freshConst("ghost_"+san(sc.Name), "Bool")
 				e.define(g, "(and "+e.cur+" "+v.t+")")
 				e.ghost[sc.Name] = g
@@ -1650,6 +1695,9 @@ func (e *Enc) structuralBindCheck(fr *Frame) {
 	for n := range ct.LoopDec {
 		chk(n, "decreases")
 	}
+	for n := range ct.LoopComplete {
+		chk(n, "completeness clause")
+	}
 	// call sites
 	have := map[string]bool{}
 	for _, b := range fr.fn.Blocks {
@@ -1675,6 +1723,20 @@ func (e *Enc) structuralBindCheck(fr *Frame) {
 		site(sc, "assert")
 	}
 	for _, sc := range ct.Ghosts {
+		before := len(e.bindErrs)
 		site(sc, "ghost")
+		if len(e.bindErrs) > before && strings.TrimSpace(sc.Clause.Text) == "true" {
+			// a "was this call reached" ghost whose call does not exist: it is never reached
+			e.ghost[sc.Name] = "false"
+			e.ghostType[sc.Name] = types.Typ[types.Bool]
+		} else if len(e.bindErrs) == before && strings.TrimSpace(sc.Clause.Text) == "true" {
+			if e.ghostPre == nil {
+				e.ghostPre = map[string]string{}
+			}
+			g := e.freshConst("ghost_"+san(sc.Name), "Bool")
+			e.ghostPre[sc.Name] = g
+			e.ghost[sc.Name] = g
+			e.ghostType[sc.Name] = types.Typ[types.Bool]
+		}
 	}
 }
